@@ -6,6 +6,7 @@ import (
 	"errors"
 	"fmt"
 	"math/bits"
+	"path/filepath"
 	"strings"
 )
 
@@ -74,7 +75,7 @@ func OpenFile(f string) (*Database, error) {
 	if err != nil {
 		return nil, err
 	}
-	d, err := newDatabase(l, f+"-journal")
+	d, err := newDatabase(l, journalName(f))
 	if err != nil {
 		// Don't leave the file open: the garbage collector would close it
 		// some time later, and closing any descriptor of a file drops all the
@@ -83,6 +84,20 @@ func OpenFile(f string) (*Database, error) {
 		return d, err
 	}
 	return d, nil
+}
+
+// journalName is where SQLite keeps the rollback journal of database file f:
+// next to the file itself, also when f is (or leads through) a symbolic
+// link. The full name is remembered, so that a later change of the working
+// directory does not make us look elsewhere.
+func journalName(f string) string {
+	if real, err := filepath.EvalSymlinks(f); err == nil {
+		f = real
+	}
+	if abs, err := filepath.Abs(f); err == nil {
+		f = abs
+	}
+	return f + "-journal"
 }
 
 func newDatabase(l pager, journal string) (*Database, error) {
